@@ -11,6 +11,14 @@ executed symbolically against the CLOSED table below and `lean/RtcVerif/Gen/Acce
                     `C15.statesTimesIn` ends with (`statesTimesIn_eq_assemble`, by `rfl`)
   trapzGen          the quadrature of `integral`                       = C15.trapz
 
+and `lean/RtcVerif/Gen/StateAt.lean` (`gen_state_at`, second table further down in this file) with
+
+  stateAtGen        the whole of `state_at` (path by path)             = C15.stateAt
+  statesPrefixGen   `__states_times_in` up to the window selection; followed by C15.assemble = C15.statesTimesIn
+  statesInGen       `states_in`                                        = C15.statesIn
+  extract*Gen       de-scaling statements of `extract_controls` / `extract_states` (collocated scalar variables,
+                    constant inputs)                                   = SVar.results / C15.ciResults
+
 Table "Python construct -> model term" (anything else is REJECTED; library idioms are trusted
 mappings to the model's abstract operation):
 
@@ -806,7 +814,8 @@ def gen_accessors(c):
 #     self.alias_relation.canonical_signed(variable)    (canonical, sign): sign < 0 / sign == -1  <->  (p.canon name).2
 #     try: inds = self.__indices[m][canonical] / except KeyError: H / else: B
 #                                                       match p.svars.lookup (p.canon name).1 with | some v => B | none => H
-#     self.integrate_states                             False (single shooting is out of the model's scope)
+#     self.integrate_states [and ...]                   False (single shooting is out of the model's scope; the rest of an
+#                                                       `and` is not evaluated, the `if` takes its else branch)
 #     self.times(canonical) | self.variable_nominal(canonical) | X[inds] | self.interpolation_method(canonical)
 #                                                       v.times | v.nominal | v.xs | v.mode
 #     self.history(m); try: hts = history[canonical] / except KeyError: H / else: B
